@@ -125,6 +125,10 @@ STRENGTHENED = [
     ("seeded/C07-k", "the condition of a conditional expression is not type-followed", "C07: conditional expressions with call sites in the condition"),
     ("seeded/C09-k", "a one-element tuple of [param]s is collapsed to its element", "C09: parameter texts 'x', / (5,) / ('p', 'q'), / () / [1, 2]"),
     ("seeded/C14-k", "a called attribute is never read out of a dictionary literal", "typed generator flag callable_fields (C14, C02): {'f_a': <lambda>, ..}.f_a(x) - a field that holds a function, read by attribute and called on the spot"),
+    ("seeded/C03-l", "callable objects that carry __wrapped__ are silently unwrapped", "C03 family 70: a decorator written as a class (functools.update_wrapper(self, fn)) whose instances change the result"),
+    ("seeded/C08-l", "names handed down to a nested operator lambda come from the table the transformer was created with", "C08: the parameter of a called lambda is used one lambda further down (inside the lambda of a collection operator in its body); called lambdas drawn more often"),
+    ("seeded/C09-l", "a called lambda followed in a throw-away type scope (its result typed Any)", "C09: receivers that are the RESULT of a lambda called where it is written; receivers reached through a method annotated Optional[Jet] (exposed the genuine defect D80)"),
+    ("seeded/C10-l", "a conditional with two equal non-numeric branches loses its type", "C10: conditionals (also behind a dict lookup / tuple index) as branches of conditionals"),
     ("seeded/C08-c", "generic subclass with more type parameters than its base uses", "C08 skeleton: Tag(Box[K], Generic[K,V]), Tag2(Box[V], ...), Swap(Pair[U,T], ...), HalfPair(Pair[T,int]), It2(Iterable[V], ...), TagInts(Tag[int,V]); class names taken from typing. This extension also exposed the genuine defects D29 and D30"),
 ]
 
